@@ -127,6 +127,22 @@ def oracle(case):
     try:
         with warnings.catch_warnings():
             warnings.simplefilter("ignore")
+            # the scratch paths have a history: a file with other event-level metadata (trailer / impact parameters) was read
+            # from the source path and written to / read back from the output path just before (same process); nothing of it
+            # may survive when the paths are overwritten - this makes a stale per-path cache visible within ONE replayable case
+            try:
+                wdoc = json.loads(json.dumps(case["doc"]))
+                if case["kind"] == "jet":
+                    wdoc["sigma"], wdoc["sigerr"] = "7.5", "0.25"
+                else:
+                    for ev in wdoc["events"]:
+                        if "b" in ev:
+                            ev["b"] = "9.750"
+                ow, _ = _open(dict(case, doc=wdoc, sel=None), tmp=tmp)
+                ow.print_particle_lists_to_file(f1)
+                _open(dict(case, doc=wdoc, sel=None), path=f1)
+            except Exception:
+                pass
             o, src = _open(case, tmp=tmp)
             before = [list(e) for e in o.particle_objects_list()]
             imp_before = list(o.impact_parameters()) if case["kind"] == "oscar" else None
@@ -188,6 +204,11 @@ def oracle(case):
             else:
                 if tuple(r.get_sigmaGen()) != tuple(o.get_sigmaGen()):
                     return f"sigmaGen {o.get_sigmaGen()} written, {r.get_sigmaGen()} read back"
+                # ... and it is the trailer of THIS source file (scratch paths are reused from case to case on purpose: a path
+                # that was read before and has been overwritten since must be read afresh)
+                want = (G.nearest_double(case["doc"]["sigma"]), G.nearest_double(case["doc"]["sigerr"]))
+                if tuple(float(x) for x in r.get_sigmaGen()) != want:
+                    return f"sigmaGen read back {tuple(r.get_sigmaGen())}, the source file's trailer says {want}"
             r.print_particle_lists_to_file(f2)
             b1, b2 = open(f1, "rb").read(), open(f2, "rb").read()
             if b1 != b2:
